@@ -96,6 +96,24 @@ fn value_prop(model: &Model, queries: &[usize], tape: &[u32], st: &mut Stats) ->
     else {
         st.class("response larger than the process buffer (process skipped)");
     }
+    // two copies of the message in ONE read through a small buffer: each response has room on its own
+    if resp.len() <= 64 && msg.len() * 2 <= 64 {
+        let twice = [msg.clone(), msg.clone()].concat();
+        let po = vrun::process::<TyI, 64>(Some(&env), &pauses, &twice, &[], None);
+        let (_, written) = vrun::observation(&po.log, &[]);
+        let want = [resp.clone(), resp.clone()].concat();
+        if written != want {
+            return Err(ctx(format!(
+                "process::<64> fed '{}' in one read wrote '{}' instead of '{}'",
+                esc(&twice),
+                esc(&written),
+                esc(&want)
+            )));
+        }
+        if resp.len() * 2 > 64 {
+            st.class("two answers in one read that only fit the buffer one at a time");
+        }
+    }
     let _ = response_len_hint;
     st.class(&format!("type {}", d.cmd));
     if is_nontrivial(&d.ret, &v) {
@@ -270,7 +288,7 @@ fn main() {
     let _ = Ty::U8;
     h.assume("decoding = the independent type-directed decoder of the harness (NR1/NRf numbers judged by exact rational arithmetic, strings with doubled quotes, definite-length blocks, bare character data, comma-separated composites)");
     h.assume("queries returning () are not generated (the statement calls value-less handlers commands)");
-    let cases = h.tier.pick(150_000, 4_000_000);
+    let cases = h.tier.pick(150_000, 12_000_000);
     h.check(
         "c04.values",
         "proptest tapes -> one query of the ty fixture (every integer width, f32/f64 from random bit patterns incl. NaN/inf/subnormal/-0, bool, &str / heapless::String / String with arbitrary UTF-8 weighted towards quotes and separators, Arbitrary blocks of length 0..3000 incl. 9/10/99/100/999/1000, Characters, Error, tuples of arity 2-4 incl. nested, heapless::Vec and slices of those) with a generated return value -> pass-through writer must see exactly: bytes that decode completely to the value, newline, one flush; heapless::Vec<u8,8192>, std Vec<u8> and process::<4096> must receive identical bytes; non-trivial = type extreme, non-finite/subnormal/zero float, string with quote/separator/newline, block at a digit-count boundary, composite",
